@@ -263,6 +263,7 @@ pub struct FrontendCtx<'a, R: FileManager> {
 
     pub type_application_stack: Vec<(String, Runtype)>,
     jsdoc_cache_by_file: BTreeMap<BffFileName, JsdocFileCache>,
+    module_items_being_located: Vec<ModuleItemAddress>,
 }
 
 #[derive(Debug)]
@@ -442,6 +443,21 @@ trait TypeModuleWalker<'a, R: FileManager + 'a, U> {
     }
 
     fn get_addressed_item(&mut self, addr: &ModuleItemAddress, err_anchor: &Anchor) -> Res<U> {
+        // Imports and re-exports may form a cycle (a.ts re-exports T from b.ts and b.ts
+        // re-exports it from a.ts): an address met again while it is being located is an error.
+        if self.get_ctx().module_items_being_located.contains(addr) {
+            return self.get_ctx().error(
+                err_anchor,
+                DiagnosticInfoMessage::CannotNotResolveType(addr.clone()),
+            );
+        }
+        self.get_ctx().module_items_being_located.push(addr.clone());
+        let res = self.locate_addressed_item(addr, err_anchor);
+        self.get_ctx().module_items_being_located.pop();
+        res
+    }
+
+    fn locate_addressed_item(&mut self, addr: &ModuleItemAddress, err_anchor: &Anchor) -> Res<U> {
         let parsed_module = self.get_ctx().get_or_fetch_file(&addr.file, err_anchor)?;
         match addr.visibility {
             Visibility::Local => {
@@ -821,6 +837,20 @@ trait ValueModuleWalker<'a, R: FileManager + 'a, U> {
         }
     }
     fn get_addressed_item(&mut self, addr: &ModuleItemAddress, anchor: &Anchor) -> Res<U> {
+        // see TypeModuleWalker::get_addressed_item: cyclic imports / re-exports
+        if self.get_ctx().module_items_being_located.contains(addr) {
+            return self.get_ctx().error(
+                anchor,
+                DiagnosticInfoMessage::CannotNotResolveValue(addr.clone()),
+            );
+        }
+        self.get_ctx().module_items_being_located.push(addr.clone());
+        let res = self.locate_addressed_item(addr, anchor);
+        self.get_ctx().module_items_being_located.pop();
+        res
+    }
+
+    fn locate_addressed_item(&mut self, addr: &ModuleItemAddress, anchor: &Anchor) -> Res<U> {
         let parsed_module = self.get_ctx().get_or_fetch_file(&addr.file, anchor)?;
         match addr.visibility {
             Visibility::Local => {
@@ -1079,6 +1109,7 @@ impl<'a, R: FileManager> FrontendCtx<'a, R> {
             type_application_stack: vec![],
             recursive_generic_uuids: BTreeSet::new(),
             jsdoc_cache_by_file: BTreeMap::new(),
+            module_items_being_located: vec![],
         }
     }
 
